@@ -251,11 +251,17 @@ Definition need_pipe (b : byte) : bool := (nth (N.to_nat b) needpipe_table 46 =?
 Definition numeric_like (buf : list byte) : bool :=
   int_rx buf || float_rx None buf || float_rx (Some 101%N) buf || float_rx (Some 100%N) buf ||
   float_rx (Some 115%N) buf || float_rx (Some 102%N) buf || float_rx (Some 108%N) buf || ratio_rx buf.
-(* Symbol.needPipes (repo_fixes C03-3): a byte needPipeMap flags, or a name beginning with a sign or a digit whose
-   lower-cased spelling is that of a number *)
+(* Symbol.needPipes (repo_fixes C03-3, C03-4): a byte needPipeMap flags - except an & in first place, which starts a
+   token (&rest) but is not accepted inside one -, or a name beginning with a sign or a digit whose lower-cased
+   spelling is that of a number *)
 Definition numeric_first (b : byte) : bool := is_digit b || (b =? 43)%N || (b =? 45)%N.
+Definition flagged (name : list byte) : bool :=
+  match name with
+  | b :: r => (need_pipe b && negb (b =? 38)%N) || existsb need_pipe r
+  | [] => false
+  end.
 Definition need_pipes (name : list byte) : bool :=
-  existsb need_pipe name ||
+  flagged name ||
   match name with b :: _ => numeric_first b && numeric_like (map lower name) | [] => false end.
 (* Symbol.Readably *)
 Definition symbol_text (c : pcfg) (name : list byte) : list byte :=
@@ -353,6 +359,8 @@ Fixpoint append_tree (margin : N) (n : node) (offset closes : nat) : list byte :
 Definition node_text (c : pcfg) (n : node) : list byte := append_tree (p_margin c) n 0 0.
 
 Definition dot_node : node := Node [46%N] [] 1.
+(* createTree: a symbol inside a list is a leaf holding what Symbol.Readably writes, like every other atom
+   (repo_fixes C03-4; it used to be caseName alone, without the bars) *)
 Fixpoint ptree (c : pcfg) (x : obj) : node :=
   let fix ptrees (l : list obj) : list node :=
     match l with [] => [] | e :: l' => ptree c e :: ptrees l' end in
@@ -361,7 +369,6 @@ Fixpoint ptree (c : pcfg) (x : obj) : node :=
   | OList xs => let es := ptrees xs in Node [] es (1 + length xs + sum_sizes es)
   | ODot xs tl => let es := ptrees xs in let t := ptree c tl in
                   Node [] (es ++ [dot_node; t]) (1 + (length xs + 1) + sum_sizes es + nsize t)
-  | OSym s => leaf_node (case_name (p_case c) s)
   | OVec xs =>
       leaf_node (if p_array c then
                    match xs with
